@@ -74,10 +74,70 @@ func lexerEOFRuleSSA(r *Run, rule string) {
 		}
 		return nil, false
 	}
+	// ... and the same for the loops that sit behind a decision on the current character (the arms of the token
+	// switch): there the character is pinned to NUL only where a loop reads it, so that every arm is entered
+	loopBlocks := map[*ssa.Function]map[*ssa.BasicBlock]bool{}
+	inLoop := func(ins ssa.Instruction) bool {
+		fn := ins.Parent()
+		if fn == nil || ins.Block() == nil {
+			return false
+		}
+		lb, done := loopBlocks[fn]
+		if !done {
+			lb = map[*ssa.BasicBlock]bool{}
+			for _, b := range fn.Blocks {
+				if isLoopHeader(b) {
+					for x := range loopBodyOf(b) {
+						lb[x] = true
+					}
+				}
+			}
+			loopBlocks[fn] = lb
+		}
+		return lb[ins.Block()]
+	}
+	moved := func(p *pwPath) bool {
+		reads, _ := lm.moves(p, len(p.events))
+		return reads > 0
+	}
+	armHook := func(p *pwPath, ld *ssa.UnOp) (constant.Value, bool) {
+		// the input ends behind the first character the arm steps over: from then on the cursor reads NUL
+		if lm.isFieldLoad(p, ld, lm.chIdx) && (inLoop(origInstr(ld)) || moved(p)) && moved(p) {
+			return constant.MakeInt64(0), true
+		}
+		return nil, false
+	}
+	armSeed := func(p *pwPath, v ssa.Value) (constant.Value, bool) {
+		if c, ok := v.(*ssa.Call); ok && c.Call.StaticCallee() == lm.peekChar && moved(p) {
+			return constant.MakeInt64(0), true
+		}
+		return nil, false
+	}
 	for _, f := range lm.m.methods {
 		fn := w.SSAFunc(f)
 		if fn == nil || !lm.hasLoop[fn] {
 			continue
+		}
+		if fn == lm.inside || fn == lm.outer {
+			apw := &pathWalker{loadHook: armHook, seed: armSeed, maxPaths: 200000, rounds: 2, inline: func(caller, callee *ssa.Function) bool {
+				return pkgOf(callee) == fn.Pkg && callee != lm.readChar && callee != lm.peekChar && !lm.hasLoop[callee] && !funcHasLoop(callee) && callee != lm.inside && callee != lm.outer
+			}}
+			apw.walk(fn)
+			armBad := false
+			for _, p := range apw.paths {
+				if p.end == "loop" && p.loopFree {
+					armBad = true
+					pos := fn.Pos()
+					if p.loopHead != nil && len(p.loopHead.Instrs) > 0 {
+						pos = firstPos(p.loopHead)
+					}
+					r.Bad(rule, f.Name(), "loop of a token arm at end of input", w.Pos(pos), "with the current character at the NUL sentinel (end of input) where the loop reads it, the loop goes round again without any open condition: a template that ends inside this token never finishes lexing")
+					break
+				}
+			}
+			if !armBad && !apw.overflow {
+				r.Ok(rule, f.Name(), "loops of the token arms stop at end of input", w.Pos(fn.Pos()), "every arm entered; with ch = 0 (and peek = 0) inside the loops no loop header is reached twice without an open condition")
+			}
 		}
 		pw := &pathWalker{loadHook: nulHook, seed: nulSeed, inline: func(caller, callee *ssa.Function) bool {
 			return pkgOf(callee) == fn.Pkg && callee != lm.readChar && callee != lm.peekChar && !lm.hasLoop[callee] && !funcHasLoop(callee) && callee != lm.inside && callee != lm.outer
